@@ -1,5 +1,6 @@
 From Coq Require Import ZArith List String Bool.
 From FV Require Import Base.Ser Base.Res C11.Model.
+From FV Require C11.ModelLigBuild.
 Import ListNotations.
 Open Scope string_scope.
 Definition tok_ser (t : tok) : list Z := match t with TNum n => [0; n] | TLt => [1] | TGt => [2] | TNull => [3] end%Z.
@@ -11,6 +12,7 @@ Definition reg : registry := [
   ("asFea", run2 asFea_ser);
   ("compile_format1", run3 compile_format1);
   ("compile_format2", run4 cf2);
-  ("compile_format3", run3 compile_format3)
+  ("compile_format3", run3 compile_format3);
+  ("build_lig", run1 ModelLigBuild.build_lig_groups)
 ].
 Definition fv_entry := dispatch reg.
